@@ -79,6 +79,18 @@ def run(tier="quick"):
     n, nund = n + n_b + n_b2, nund + nund_b + nund_b2
     nsp = R.check_spawn(chk, prog, {"builtin_exec": None, "spifconf_parse_line": "preproc"})
     nex = R.check_exec_reachability(chk, prog, u)
+    # S7 a built-in is selected by its whole name: the bounded comparison of a table entry's name with the text after the '%'
+    # decides a call only together with the end of the other string at that length - otherwise `%e(` / `%ex(` select %exec and
+    # text without %exec spawns a process
+    from . import C08 as _C08
+    from ..facts import walk
+    chk.rule("S7", "a built-in function is selected by its whole name, not by a prefix of it")
+    nbm = _C08.check_whole_name_match(chk, prog, u, field="name", rule="S7", only={"spifconf_shell_expand"} | {
+        g_.name for g_ in u.functions.values() if g_.static and g_.body is not None and any(
+            y.get("k") == "ref" and y.get("n") == "builtins" for y in walk(g_.body))},
+        story="text that merely begins like a built-in's name (or that a built-in's name begins with) calls that built-in - `%e(cmd)` "
+              "runs %exec, so text without %exec or a backquote spawns a process")
+    chk.count("builtin_name_matches", nbm, floor=1)
     R.check_tempfile(chk, prog)
     ninit, nfree = R.check_lifecycle(chk, u)
     nl = 0
